@@ -76,10 +76,17 @@ def dep_tags(d, lib_prefix, include_version):
 def merge_kw(attrs, kw):
     """attrs: [[name, val], ...] with distinct normalised names; kw: [[raw, val], ...] (update = replace)."""
     out = [[norm_name(n), v] for n, v in attrs]
+    # within the one update(**kw) call, spellings that normalise to the same name are joined by a space ...
+    merged = {}
     for raw, v in kw:
         if v["t"] in ("none", "false"):
             continue
         n = norm_name(raw)
+        txt = "" if v["t"] == "true" else str(v.get("s", v.get("v")))
+        merged[n] = (merged[n] + " " + txt) if n in merged else txt
+    # ... and the result replaces an existing attribute (position kept) or is appended
+    for n, txt in merged.items():
+        v = {"t": "str", "s": txt}
         for item in out:
             if item[0] == n:
                 item[1] = v
